@@ -1031,7 +1031,76 @@ def _corpus_worker(job):
     return res
 
 
+RELOAD = os.path.join(os.path.dirname(os.path.dirname(os.path.abspath(__file__))), "c12_reload.py")
+
+
+def _reload_probe(ctx, res):
+    """File edited and re-imported in the same session (harness/c12_reload.py); oracle only."""
+    base = "def f(x):\n    t = x * %s\n    return ('v', t)\n"
+    confs = []
+    for keep_mtime, consts in ((True, ("2", "3", "2")), (False, ("2", "3")), (True, ("2", "7")), (False, ("2", "11", "2")), (True, ("4", "5", "6"))):
+        confs.append(dict(keep_mtime=keep_mtime, same_size=len({len(c) for c in consts}) == 1, texts=[base % c for c in consts]))
+    env = dict(os.environ, PYTHONPATH=str(core.REPO))
+    for k, conf in enumerate(confs):
+        spec = dict(conf, dir=os.path.join(str(ctx.scratch), f"reload{k}"))
+        case = dict(kind="reload-probe", keep_mtime=conf["keep_mtime"], same_size=conf["same_size"], texts=conf["texts"])
+        try:
+            p = subprocess.run([core.PY, "-B", RELOAD, json.dumps(spec)], env=env, capture_output=True, text=True, timeout=120)
+            out = json.loads(p.stdout.strip().splitlines()[-1])
+        except (subprocess.TimeoutExpired, ValueError, IndexError) as e:
+            res.fail("reload-probe:did-not-finish", case, repr(e)[:300])
+            continue
+        res.evaluations += len(out["steps"])
+        res.count("reload-probe-runs")
+        res.nontrivial.add(("reload", conf["keep_mtime"], conf["same_size"], len(conf["texts"])))
+        if out["errors"]:
+            e = out["errors"][0]
+            res.fail(f"{e[2]}:module:reloaded-in-session" + (":same-size-and-mtime" if conf["keep_mtime"] and conf["same_size"] else ""),
+                     case, out)
+
+
+INTERRUPT = os.path.join(os.path.dirname(os.path.dirname(os.path.abspath(__file__))), "c12_interrupt.py")
+
+
+def _interrupt_probe(ctx, res):
+    """The wipe after a source change is interrupted half-way while the old func_code.py is still there (harness/c12_interrupt.py)."""
+    base = "def f(x):\n    t = x * %s\n    return ('w', t)\n"
+    env = dict(os.environ, PYTHONPATH=str(core.REPO))
+    for k, (exc, nargs) in enumerate([("KeyboardInterrupt", 4), ("OSError", 6), ("KeyboardInterrupt", 8)]):
+        d = os.path.join(str(ctx.scratch), f"interrupt{k}")
+        args = list(range(nargs))
+        case = dict(kind="interrupt-probe", exc=exc, args=args)
+        outs = []
+        try:
+            for phase, const in ((1, "2"), (2, "30"), (3, "30")):
+                spec = dict(dir=d, phase=phase, text=base % const, args=args, exc=exc)
+                p = subprocess.run([core.PY, "-B", INTERRUPT, json.dumps(spec)], env=env, capture_output=True, text=True, timeout=120)
+                outs.append(json.loads(p.stdout.strip().splitlines()[-1]))
+        except (subprocess.TimeoutExpired, ValueError, IndexError) as e:
+            res.fail("interrupt-probe:did-not-finish", case, repr(e)[:300])
+            continue
+        res.evaluations += len(outs[2]["steps"])
+        res.count("interrupt-probe-runs")
+        if not outs[1].get("fired") or outs[1].get("note") or not outs[1].get("interrupted"):
+            res.count("interrupt-probe-not-applicable")
+            continue
+        res.nontrivial.add(("interrupt", exc, nargs, outs[1].get("entries_left")))
+        if outs[2]["errors"]:
+            e = outs[2]["errors"][0]
+            res.fail(f"{e[1]}:module:wipe-interrupted-before-func-code-removed", case, dict(phase2=outs[1], phase3=outs[2]))
+
+
 def run(ctx):
+    if ctx.replay and (ctx.replay.get("case") or {}).get("kind") == "reload-probe":
+        res = Result()
+        res.rule = "replay: the reload probe is re-run"
+        _reload_probe(ctx, res)
+        return res
+    if ctx.replay and (ctx.replay.get("case") or {}).get("kind") == "interrupt-probe":
+        res = Result()
+        res.rule = "replay: the interrupted-wipe probe is re-run"
+        _interrupt_probe(ctx, res)
+        return res
     if ctx.replay:
         core.use_repo()
         res = Result()
@@ -1041,9 +1110,10 @@ def run(ctx):
             raise core.InfraError("replay file has no history")
         run_one(case, os.path.join(str(ctx.scratch), "replay"), ctx.driver(), res, impl_cfg(ctx.scratch))
         return res
-    if ctx.thorough:
-        return explore(ctx, [("main", 2500), ("multi", 4000), ("alias", 400)])
-    return explore(ctx, [("main", 450), ("multi", 260), ("alias", 30)])
+    res = explore(ctx, [("main", 2500), ("multi", 4000), ("alias", 400)] if ctx.thorough else [("main", 450), ("multi", 260), ("alias", 30)])
+    _reload_probe(ctx, res)
+    _interrupt_probe(ctx, res)
+    return res
 
 
 def search(ctx, res):
